@@ -190,6 +190,42 @@ def sib(F, res):
     d = F.fn("<tx3_tir::model::v1beta0::StructExpr as %sTryIntoData>::try_as_data" % P)
     uc = any(call_matches(t, P + "constr") for _, t in mir.calls(c))
     ud = any(call_matches(t, P + "constr") for _, t in mir.calls(d))
+    # ... and on every path on which they succeed: the declared constructor index reaches constr() - no success return that
+    # bypasses it (a shortcut for field-less values that forgets the index encodes every such case as alternative 0)
+    from ..common import with_helpers
+    for g0 in (c, d):
+        g = with_helpers(F, g0["path"])
+        gdu = mir.DefUse(g)
+        gcfg = mir.CFG(g)
+        stops = set()
+        for bi, t in mir.calls(g):
+            if call_matches(t, P + "constr") and t["args"]:
+                if any(o.kind == "arg" and ".constructor" in o.proj for o in mir.provenance(g, gdu, t["args"][0], transparent_extra=("std::convert::From::from", "std::convert::Into::into", "std::clone::Clone::clone"))):
+                    stops.add(bi)
+        keyp = "%s|every success passes constr(self.constructor, ..)" % g0["path"]
+        if not stops:
+            res.add([finding("SIB", keyp, where(g0), "no call of constr() receives the struct's `constructor` index")])
+            continue
+        oks = set()
+        for o in mir.provenance(g, gdu, {"l": 0, "p": []}):
+            if o.kind == "agg" and o.rv.get("variant") == "Ok":
+                for bi, si, st in mir.stmts(g):
+                    if st["rv"] is o.rv:
+                        oks.add(bi)
+        seen, stk = set(), [0]
+        while stk:
+            b_ = stk.pop()
+            if b_ in seen or b_ in stops or g["blocks"][b_]["cleanup"]:
+                continue
+            seen.add(b_)
+            stk.extend(gcfg.succ[b_])
+        # Ok(..) built by the constr call's continuation is fine; an Ok(..) reachable without passing a constr call is not
+        bypass = sorted(oks & seen)
+        if bypass:
+            ln = g["blocks"][bypass[0]]["s"][0]["line"] if g["blocks"][bypass[0]]["s"] else None
+            res.add([finding("SIB", keyp, where(g0, ln), "%s can succeed without handing the struct's constructor index to constr(): such values are encoded with another alternative than the one the template names" % g0["path"].split("::")[-1])])
+        else:
+            res.add([ok("SIB", keyp, where(g0), "every Ok(..) is behind constr(ir.constructor, ..)")])
     key2 = "compile_struct ~ TryIntoData for StructExpr"
     if uc and ud:
         res.add([ok("SIB", key2, where(c), "both build the constructor through plutus_data::constr")])
